@@ -21,7 +21,8 @@
    ec_enc_done, trailing-zero strip — must reproduce the packet's payload bytes and OPUS_GET_FINAL_RANGE:
      rangecoder oframe <max_data_bytes> <fill> <bandwidth> <nCh> <ms10> <flags> <records>
         the caller's output buffer is pre-filled: byte j behind the TOC byte = (fill + 37*j) % 256
-     answer: P <hex payload (packet without TOC)> F <final range>
+     answer: P <hex payload (packet without TOC)> F <final range> R <ok|diff:…>
+        R  model-free: the real opus_decode runs on the packet; `ok` iff it succeeds and its OPUS_GET_FINAL_RANGE is the encoder's
    When the encoder appended a 5 ms CELT redundancy frame (SILK bandwidth switch: silk_bw_switch, celt_to_silk = 1) — seen by a
    wrapper around celt_encode_with_ec, which records where the frame was written and the CELT encoder's final range —
    the line is `oframer` with three more fields <celt_to_silk> <hex R> <redundant_rng>; the model is silkRedFrame (main part
@@ -273,15 +274,16 @@ static void run_stream(vrng *r)
    free(psEnc); free(buf); free(decSt);
 }
 
-static long o_packets, o_skipped, o_stereo, o_stripped, o_red;
+static long o_packets, o_skipped, o_stereo, o_stripped, o_red, o_rt_diff;
 static void run_ostream(vrng *r)
 {
    static const int BW[] = {OPUS_BANDWIDTH_NARROWBAND, OPUS_BANDWIDTH_MEDIUMBAND, OPUS_BANDWIDTH_WIDEBAND}, MS[] = {10, 20, 20, 40, 60};
    int bwi = (int)vbelow(r, 3), nch = vchance(r, 50) ? 2 : 1, ms = MS[vbelow(r, 5)], npk = vrange(r, 3, 12), p, i, err = 0;
    int fs = 16000, nsamp = fs / 1000 * ms, left = 0; seg_t sg; static float pcmf[2 * 960]; static opus_int16 pcm16[2 * 960];
    OpusEncoder *enc = opus_encoder_create(fs, nch, OPUS_APPLICATION_VOIP, &err);
+   OpusDecoder *dec = opus_decoder_create(fs, nch, &err); static opus_int16 pcmout[2 * 960];
    memset(&sg, 0, sizeof sg);
-   if (!enc || err) { printf("# opus_encoder_create failed\n"); return; }
+   if (!enc || !dec || err) { printf("# opus_encoder_create / opus_decoder_create failed\n"); return; }
    opus_encoder_ctl(enc, OPUS_SET_FORCE_MODE(MODE_SILK_ONLY));
    opus_encoder_ctl(enc, OPUS_SET_BANDWIDTH(BW[bwi]));
    opus_encoder_ctl(enc, OPUS_SET_VBR(1)); opus_encoder_ctl(enc, OPUS_SET_DTX(0));
@@ -291,7 +293,7 @@ static void run_ostream(vrng *r)
    if (vchance(r, 60)) { opus_encoder_ctl(enc, OPUS_SET_INBAND_FEC(1)); opus_encoder_ctl(enc, OPUS_SET_PACKET_LOSS_PERC(vrange(r, 5, 30))); }
    for (p = 0; p < npk; p++) {
       static unsigned char out[1500]; int maxb = vchance(r, 30) ? vrange(r, 150, 400) : 1276, len, bad = 0, config, nfpp, nb, k, toc;
-      unsigned fill = vbelow(r, 256); opus_uint32 rng = 0; static const int MS10[] = {100, 200, 400, 600};
+      unsigned fill = vbelow(r, 256); opus_uint32 rng = 0, drng = 0; int dret; static const int MS10[] = {100, 200, 400, 600};
       if (p > 0 && vchance(r, 20)) opus_encoder_ctl(enc, OPUS_SET_BANDWIDTH(BW[vbelow(r, 3)]));   /* bandwidth switches bring redundancy frames */
       fill_audio(r, &sg, &left, pcmf, nsamp, nch, fs);
       for (i = 0; i < nsamp * nch; i++) { float v = pcmf[i] * 32767.0f; pcm16[i] = (opus_int16)(v > 32767 ? 32767 : v < -32768 ? -32768 : v); }
@@ -303,6 +305,8 @@ static void run_ostream(vrng *r)
       rec_on = 0;
       if (len < 0) { printf("# opus_encode returned %d\n", len); break; }
       opus_encoder_ctl(enc, OPUS_GET_FINAL_RANGE(&rng));
+      { unsigned char *copy = vexact(out, len); dret = opus_decode(dec, copy, len, pcmout, 960, 0); free(copy); }
+      opus_decoder_ctl(dec, OPUS_GET_FINAL_RANGE(&drng));
       toc = out[0]; config = toc >> 3;
       for (i = 0; i < 3; i++) if (calls_this_frame[0][i] > 1 || calls_this_frame[1][i] > 1) bad = 1;
       if (len < 2 || config >= 12 || (toc & 3) != 0 || bad || n_patch != 1 || rec_overflow) { o_skipped++; continue; }
@@ -313,11 +317,12 @@ static void run_ostream(vrng *r)
       if (n_celt_red > 1 || (n_celt_red == 1 && (red_len < 2 || red_ptr + red_len != out + len))) { o_skipped++; continue; }
       printf("I rangecoder %s %d %u %d %d %d %u %s", n_celt_red ? "oframer" : "oframe", maxb, fill, 1101 + (config >> 2), ((toc >> 2) & 1) + 1, MS10[config & 3], flags_word, recn ? rec : "-");
       if (n_celt_red) { printf(" %d ", n_celt == 1); vhex(stdout, red_ptr, red_len); printf(" %u", (unsigned)red_rng); o_red++; }
-      printf("\nO P "); vhex(stdout, out + 1, len - 1); printf(" F %u\n", (unsigned)rng);
+      printf("\nO P "); vhex(stdout, out + 1, len - 1); printf(" F %u", (unsigned)rng);
+      if (dret == nsamp && drng == rng) printf(" R ok\n"); else { printf(" R diff:opus_decode=%d,final_range=%u\n", dret, (unsigned)drng); o_rt_diff++; }
       o_packets++; if ((toc >> 2) & 1) o_stereo++;
       fflush(stdout);
    }
-   opus_encoder_destroy(enc);
+   opus_encoder_destroy(enc); opus_decoder_destroy(dec);
 }
 
 int main(int argc, char **argv)
@@ -331,7 +336,7 @@ int main(int argc, char **argv)
    } else if (argc >= 4 && !strcmp(argv[1], "oframe")) {
       vrng m; long i, n = atol(argv[3]); m.s = strtoull(argv[2], 0, 10) * 0x9E3779B97F4A7C15ULL + 0xC08F4A3EULL; m.s = vnext(&m);
       for (i = 0; i < n; i++) { vrng r; r.s = vnext(&m); run_ostream(&r); }
-      printf("# oframe streams=%ld packets=%ld stereo=%ld with-redundancy=%ld skipped=%ld\n", n, o_packets, o_stereo, o_red, o_skipped);
+      printf("# oframe streams=%ld packets=%ld stereo=%ld with-redundancy=%ld decoder-final-range-diffs=%ld skipped=%ld\n", n, o_packets, o_stereo, o_red, o_rt_diff, o_skipped);
    } else { fprintf(stderr, "usage: c08_silkpacket rand|oframe <seed> <n>\n"); return 64; }
    return 0;
 }
